@@ -50,11 +50,14 @@ def main():
     if meta["demo_pkg_dir"].strip("/").startswith("cmd/hidi"):
         # cmd/hidi only links with a cgo-free stand-in for the alsa driver (never part of a patch)
         shutil.copy(os.path.join(VERIF, "deps", "alsa", "alsa.go"), os.path.join(wt, "internal/pkg/midi/driver/alsa/alsa.go"))
-    rc, out = sh("go test -vet=off -count=1 %s" % pkg, cwd=wt)
+    import re
+    names = re.findall(r"^func (Test\w+)\(", open(os.path.join(mdir, "demo_test.go")).read(), re.M)
+    runpat = "'^(%s)$'" % "|".join(names)
+    rc, out = sh("go test -vet=off -count=1 -run %s %s" % (runpat, pkg), cwd=wt)
     verdict["demo_passes_clean"] = rc == 0
     rc, out = sh(["git", "apply", os.path.join(mdir, "patch.diff")], cwd=wt)
     verdict["patch_applies"] = rc == 0
-    rc, out = sh("go test -vet=off -count=1 %s" % pkg, cwd=wt)
+    rc, out = sh("go test -vet=off -count=1 -run %s %s" % (runpat, pkg), cwd=wt)
     verdict["demo_fails_mutated"] = rc != 0
     os.remove(demo)
     sh("git checkout -- internal/pkg/midi/driver/alsa/alsa.go", cwd=wt)
